@@ -732,7 +732,10 @@ def W1_W2_builders(rep, flow: Flow, want=("W1", "W2")):
                 mdo = r.heap.get(md.oid) if isinstance(md, Ref) else None
                 recs = [val for (k, val, w) in (mdo.meta.get("stores", []) if mdo else []) if isinstance(val, Ref) and r.heap[val.oid].kind == "record"]
                 if not recs:
-                    rep.finding("W2", f"{fq}:no-record", f"{f.module.rel} {f.qualname} return path #{pi}: no readout record is stored in the metadata of the returned circuit")
+                    for rid in ("W2", "W1"):
+                        if rid in rep.rules:
+                            rep.finding(rid, f"{fq}:no-record", f"{f.module.rel} {f.qualname} return path #{pi}: no readout record is stored in the metadata of the returned circuit (or it is stored in a dictionary shared with another circuit)")
+                            break
                     continue
                 rec = r.heap[recs[-1].oid]
                 comp = [ev for ev in r.events if ev[0] == "compose" and ev[4] == c.oid]
